@@ -292,6 +292,7 @@ pub fn run(seed: u64, mut ov: impl FnMut(&mut engine::Cfg)) -> ! {
         // per bystander must do - a wake-up swallowed by the cancelled target starves one
         let n_events = if adjacent == Some(true) && n_by >= 1 { n_by } else { 1 + n_by };
         let tco = target.co.as_ref().unwrap().coroutine().clone();
+        let tre2 = target_reached_end.clone();
         actors.push(rt::spawn_actor(Ctx::Thread, "releaser", move || {
             for _ in 0..dally {
                 engine::yield_point();
@@ -339,6 +340,28 @@ pub fn run(seed: u64, mut ov: impl FnMut(&mut engine::Cfg)) -> ! {
             if adjacent == Some(false) {
                 w2.cancel_issued.store(true, Ordering::Relaxed);
                 unsafe { tco.cancel() };
+            }
+            if adjacent == Some(true) && n_by >= 1 {
+                // the target may have got through without blocking at all (the cancel takes
+                // effect only at a blocking call) and consumed one event legitimately: make
+                // up for it. A cancelled target gets nothing, so nothing is added then
+                engine::sleep(5_000_000);
+                if tre2.load(Ordering::Relaxed) {
+                    match kind {
+                        Kind::SemWait => {
+                            w2.posts.fetch_add(1, Ordering::Relaxed);
+                            w2.sem.post();
+                        }
+                        Kind::CondWait => {
+                            *w2.cv_pair.0.lock().unwrap() += 1;
+                            w2.cv_pair.1.notify_one();
+                        }
+                        Kind::MpmcRecv | Kind::Select => {
+                            let _ = mpmc_tx.send(99);
+                        }
+                        _ => {}
+                    }
+                }
             }
             // keep the senders alive for a while, then disconnect: nobody must hang on them
             engine::sleep(60_000_000);
